@@ -1702,9 +1702,12 @@ class Interp:
         fr.locals[node.name] = Closure(node, fr, node.name)
 
     def ex_Import(self, node, fr):
+        import importlib
         for a in node.names:
-            mod = __import__(a.name)
-            fr.locals[(a.asname or a.name).split('.')[0]] = mod
+            if a.asname:
+                fr.locals[a.asname] = importlib.import_module(a.name)
+            else:
+                fr.locals[a.name.split('.')[0]] = __import__(a.name)
 
     def ex_ImportFrom(self, node, fr):
         import importlib
